@@ -14,6 +14,7 @@ import (
 
 	"verifharness/drv"
 	"verifharness/e2"
+	"verifharness/e3"
 	"verifharness/report"
 )
 
@@ -55,6 +56,18 @@ func TestCorr(t *testing.T) {
 			}
 		} else {
 			e2.Sweep(e, tier, seed, arg("-only"), res)
+		}
+		os.Remove(e.CurFile)
+	case "e3":
+		e := e3.New(d, t)
+		e.CurFile = out + ".cur"
+		e.Props = arg("-props")
+		if rp := arg("-replay"); rp != "" {
+			if f := e.Run(readOps(rp), res); f != nil {
+				res.Failures = append(res.Failures, *f)
+			}
+		} else {
+			e3.Sweep(e, tier, seed, arg("-mode"), res)
 		}
 		os.Remove(e.CurFile)
 	default:
